@@ -617,12 +617,16 @@ Definition doc_ischema (s : ischema) : N :=
 
 (* 0 = documented limits respected; 23 = indexSchema is documented as required but absent;
    21 = alpha outside the documented interval; 22 = binary-quantizer triggerThreshold outside; 2 = other *)
+(* the binding tag `alphanum`: ASCII letters and digits *)
+Definition alnum_ranges : list (N * N) := [(97, 122); (65, 90); (48, 57)]%N.
 Definition doc_create2 (r : create2) : N :=
   first_code [ (in_range doc_v2_collection_id_min doc_v2_collection_id_max (c2_id_bytes r), 2%N);
+               (negb doc_v2_collection_id_alphanum || runes_ok alnum_ranges (c2_id_runes r), 2%N);
                (negb doc_v2_index_schema_required || c2_schema_present r, 23%N);
                (N.eqb (doc_ischema (c2_schema r)) 0, doc_ischema (c2_schema r)) ].
 Definition doc_create1 (r : create1) : N :=
   first_code [ (in_range doc_v1_collection_id_min doc_v1_collection_id_max (c1_id_bytes r), 2%N);
+               (negb doc_v1_collection_id_alphanum || runes_ok alnum_ranges (c1_id_runes r), 2%N);
                (mem (c1_metric r) doc_v1_metrics, 2%N) ].
 
 Definition doc_ranked (lenmax : Z) (ops : list string) (lmin lmax : Z) (o : ropts query) : bool :=
